@@ -152,6 +152,19 @@ func c13Generate(c *mon.Ctx) {
 
 	mr := c.SharedRng("moves")
 
+	// the object as its own argument, or meeting an equal / opposite value, from every Montgomery-structured start value
+	for i, v := range gen.MontStructured(n) {
+		via := mon.SelfVias[i%len(mon.SelfVias)]
+		if via == "add-to-zero" && v.X.Sign() == 0 {
+			via = "sub-self"
+		}
+
+		for _, vv := range []string{via, "add-self"} {
+			mv := mon.PlanScalarMoveFrom(vv, mr, v.X)
+			c.Structured(func() any { return &c13Case{Op: "cmp", S: mv.To, T: mv.To, Class: "history", Move: &mv} })
+		}
+	}
+
 	for rep := 0; rep < 12; rep++ {
 		for _, via := range mon.ScalarVias {
 			mv := mon.PlanScalarMove(via, mr)
